@@ -23,9 +23,9 @@ func (C04) Plan(tier string) core.Plan {
 
 func (C04) Info() core.Info {
 	return core.Info{
-		Rule:        "planned (derivable by construction) worlds with conversion chains of depth 1-4, diamonds, multi-input, struct-returning, built and run-once converters and noise; fault plan: 1-3 (party, k-th execution) entries return a fresh error value, including the target itself; 1-2 operations per history: Call, and sometimes the same resolution through Redefine + a call of the redefined function, or Convert. Oracle over the ordered party log of each call: the first failing execution's error value is what Call returns (pointer identity), nothing runs after it, the target does not run; no error => no execution failed. Non-trivial: a fault actually fired; distinct = distinct (world shape incl. fault plan, event-log hash)",
+		Rule:        "planned (derivable by construction) worlds with conversion chains of depth 1-4, diamonds, multi-input, struct-returning, built and run-once converters and noise; fault plan: 1-3 (party, k-th execution) entries return a fresh error value (now and then a typed-nil pointer of an error type, which is a non-nil error, or an unsatisfied-argument error of the converter's own making), including the target itself; 1-2 operations per history: Call, and sometimes the same resolution through Redefine + a call of the redefined function, or Convert. Oracle over the ordered party log of each call: the first failing execution's error value is what Call returns (pointer identity), nothing runs after it, the target does not run; no error => no execution failed. Non-trivial: a fault actually fired; distinct = distinct (world shape incl. fault plan, event-log hash)",
 		Assumptions: []string{"injected errors are unique pointer values, so identity comparison is exact"},
-		Probes:      []string{"fault_fired_conv_error", "c04_failed_at_depth_ge2", "c04_failed_multi_input", "c04_failed_struct_returning", "c04_failed_built", "c04_failed_once", "c04_target_error", "c04_redefined_calls", "c04_no_error_calls", "s1_nonidentity_perms"},
+		Probes:      []string{"fault_fired_conv_error", "c04_failed_at_depth_ge2", "c04_failed_multi_input", "c04_failed_struct_returning", "c04_failed_built", "c04_failed_once", "c04_target_error", "c04_redefined_calls", "c04_typed_nil_error", "c04_own_unsatisfied_error", "c04_no_error_calls", "s1_nonidentity_perms"},
 		Real:        realComponents,
 		Simulated:   simComponents,
 	}
@@ -51,7 +51,14 @@ func (C04) Gen(r *simrt.RNG, tier string) core.Case {
 		if !w.Parties[pi].HasErr {
 			continue
 		}
-		w.Faults = append(w.Faults, world.Fault{Kind: "conv_error", Party: pi, Nth: 1 + r.Intn(2)})
+		kind := "conv_error"
+		switch r.Intn(12) {
+		case 0, 1:
+			kind = "typed_nil_error" // a nil pointer of an error type: still a non-nil error value
+		case 2:
+			kind = "unsat_error" // the converter's own *ErrArgumentUnsatisfied
+		}
+		w.Faults = append(w.Faults, world.Fault{Kind: kind, Party: pi, Nth: 1 + r.Intn(2)})
 	}
 	switch r.Intn(6) {
 	case 0, 1:
@@ -81,7 +88,7 @@ func c04Valid(w world.World) bool {
 		}
 	}
 	for _, f := range w.Faults {
-		if f.Kind != "conv_error" {
+		if f.Kind != "conv_error" && f.Kind != "typed_nil_error" && f.Kind != "unsat_error" {
 			return false
 		}
 	}
@@ -128,13 +135,14 @@ func (C04) Run(c core.Case, ctx *core.Ctx) []core.Violation {
 				tgt = -1 // the synthesized identity target is not a party
 			}
 			if !res.Returned {
-				ctx.St.Inc("cross_c06_panic_or_divergence")
+				// neither the converter's error nor a result came back
+				out = append(out, core.Violation{Class: res.PanicClass, Site: res.PanicSite, Detail: fmt.Sprintf("op %d did not return: %s", oi, trunc(res.PanicDetail))})
 				continue
 			}
 			var first *world.ExecRec
 			firstIdx := -1
 			for i := res.LogFrom; i < res.LogTo; i++ {
-				if rt.Log[i].Err != nil {
+				if rt.Log[i].Failed() {
 					first = &rt.Log[i]
 					firstIdx = i
 					break
@@ -143,6 +151,12 @@ func (C04) Run(c core.Case, ctx *core.Ctx) []core.Violation {
 			if first != nil {
 				fired = true
 				p := rt.Parties[first.Party]
+				if first.TypedNil {
+					ctx.St.Inc("c04_typed_nil_error")
+				}
+				if first.ErrAny != nil {
+					ctx.St.Inc("c04_own_unsatisfied_error")
+				}
 				if first.Party == tgt {
 					ctx.St.Inc("c04_target_error")
 				} else {
@@ -161,13 +175,13 @@ func (C04) Run(c core.Case, ctx *core.Ctx) []core.Violation {
 					}
 					if p.Once {
 						ctx.St.Inc("c04_failed_once")
-						onceErr[first.Err] = true
+						onceErr[first.ErrValue()] = true
 					}
 				}
 				if res.Err == nil {
 					add("converter-error-swallowed", fmt.Sprintf("op %d: party %d (%s) returned an error but Call reported none", oi, first.Party, p))
-				} else if res.Err != error(first.Err) {
-					add("wrong-error-returned", fmt.Sprintf("op %d: party %d failed with %q but Call returned %q", oi, first.Party, first.Err.Error(), trunc(res.Err.Error())))
+				} else if res.Err != first.ErrValue() {
+					add("wrong-error-returned", fmt.Sprintf("op %d: party %d failed with %q but Call returned %q", oi, first.Party, first.ErrValue().Error(), trunc(res.Err.Error())))
 				}
 				if firstIdx != res.LogTo-1 {
 					nx := rt.Log[firstIdx+1]
